@@ -32,7 +32,9 @@ type switchboard struct {
 
 	conns      sync.Map
 	connsCount uint32
-	randPool   sync.Pool
+	// addConnM serialises addConn so that a slot is filled before the count that makes it selectable is raised
+	addConnM sync.Mutex
+	randPool sync.Pool
 
 	broken uint32
 }
@@ -54,8 +56,12 @@ func makeSwitchboard(sesh *Session) *switchboard {
 var errBrokenSwitchboard = errors.New("the switchboard is broken")
 
 func (sb *switchboard) addConn(conn net.Conn) {
-	connId := atomic.AddUint32(&sb.connsCount, 1) - 1
+	sb.addConnM.Lock()
+	connId := atomic.LoadUint32(&sb.connsCount)
 	sb.conns.Store(connId, conn)
+	// publish the slot only once it is filled: pickRandConn draws from [0, connsCount)
+	atomic.AddUint32(&sb.connsCount, 1)
+	sb.addConnM.Unlock()
 	go sb.deplex(conn)
 }
 
